@@ -185,29 +185,58 @@ func init() {
 	addSeeds(
 		// ---- C10 ----
 		seed{Prop: "C10", Name: "assumption-flags-not-recreated", File: "solver/solver.go",
-			Old: "\ts.assumptions = make([]bool, s.nbVars)\n\n\tfor _, lit := range lits {", New: "\tfor _, lit := range lits {", Expect: "R10.1"},
+			Old: "\ts.assumptions = make([]bool, s.nbVars)\n\ts.status = Indet\n", New: "\ts.status = Indet\n", Expect: "R10.1"},
 		seed{Prop: "C10", Name: "trail-not-reset", File: "solver/solver.go",
 			Old: "\ts.cleanupBindings(0)\n\ts.trail = s.trail[:0]\n", New: "\ts.cleanupBindings(0)\n", Expect: "R10.1"},
 		seed{Prop: "C10", Name: "status-not-reset", File: "solver/solver.go",
-			Old: "\ts.status = Indet\n\tif confl := s.propagate(0, 1); confl != nil {", New: "\tif confl := s.propagate(0, 1); confl != nil {", Expect: "R10.2"},
+			Old: "\ts.assumptions = make([]bool, s.nbVars)\n\ts.status = Indet\n", New: "\ts.assumptions = make([]bool, s.nbVars)\n", Expect: "R10.2"},
 		seed{Prop: "C10", Name: "status-reset-after-propagation", File: "solver/solver.go",
-			Old: "\ts.status = Indet\n\tif confl := s.propagate(0, 1); confl != nil {\n\t\t// Conflict after unit propagation\n\t\ts.status = Unsat\n\t\treturn s.status\n\t}\n\treturn s.status",
-			New: "\tif confl := s.propagate(0, 1); confl != nil {\n\t\t// Conflict after unit propagation\n\t\ts.status = Unsat\n\t}\n\ts.status = Indet\n\treturn s.status", Expect: "R10.2"},
+			Old: "\ts.assumptions = make([]bool, s.nbVars)\n\ts.status = Indet\n", New: "\ts.assumptions = make([]bool, s.nbVars)\n",
+			More: []edit{{File: "solver/solver.go", Old: "\tif confl := s.propagate(0, 1); confl != nil {\n\t\t// Conflict after unit propagation\n\t\ts.status = Unsat\n\t\treturn s.status\n\t}\n\treturn s.status",
+				New: "\tif confl := s.propagate(0, 1); confl != nil {\n\t\t// Conflict after unit propagation\n\t\ts.status = Unsat\n\t}\n\ts.status = Indet\n\treturn s.status"}}, Expect: "R10.2"},
 		seed{Prop: "C10", Name: "propagate-removed", File: "solver/solver.go",
-			Old: "\ts.status = Indet\n\tif confl := s.propagate(0, 1); confl != nil {\n\t\t// Conflict after unit propagation\n\t\ts.status = Unsat\n\t\treturn s.status\n\t}\n\treturn s.status",
-			New: "\ts.status = Indet\n\treturn s.status", Expect: "R10.3"},
+			Old: "\tif confl := s.propagate(0, 1); confl != nil {\n\t\t// Conflict after unit propagation\n\t\ts.status = Unsat\n\t\treturn s.status\n\t}\n\treturn s.status",
+			New: "\treturn s.status", Expect: "R10.3"},
 		seed{Prop: "C10", Name: "propagate-from-last-only", File: "solver/solver.go",
 			Old: "\tif confl := s.propagate(0, 1); confl != nil {\n\t\t// Conflict after unit propagation",
 			New: "\tif confl := s.propagate(len(s.trail)-1, 1); confl != nil {\n\t\t// Conflict after unit propagation", Expect: "R10.3"},
 		seed{Prop: "C10", Name: "assumption-not-on-trail", File: "solver/solver.go",
 			Old: "\t\ts.assumptions[lit.Var()] = true\n\t\ts.trail = append(s.trail, lit)\n", New: "\t\ts.assumptions[lit.Var()] = true\n", Expect: "R10.3"},
 		seed{Prop: "C10", Name: "early-return-on-empty-assumptions", File: "solver/solver.go",
-			Old: "\ts.assumptions = make([]bool, s.nbVars)\n\n\tfor _, lit := range lits {", New: "\ts.assumptions = make([]bool, s.nbVars)\n\tif len(lits) == 0 {\n\t\treturn s.status\n\t}\n\tfor _, lit := range lits {", Expect: "R10.2,R10.3"},
+			Old: "\ts.assumptions = make([]bool, s.nbVars)\n\ts.status = Indet\n", New: "\ts.assumptions = make([]bool, s.nbVars)\n\ts.status = Indet\n\tif len(lits) == 0 {\n\t\treturn s.status\n\t}\n", Expect: "R10.3"},
 		seed{Prop: "C10", Name: "restart-retracts-level-1", File: "solver/solver.go",
 			Old: "\t\t\t\ts.lbdStats.clear()\n\t\t\t\ts.cleanupBindings(1)", New: "\t\t\t\ts.lbdStats.clear()\n\t\t\t\ts.cleanupBindings(0)", Expect: "R10.4"},
 		seed{Prop: "C10", Name: "benign-reset-helper", File: "solver/solver.go",
 			Old: "\ts.cleanupBindings(0)\n\ts.trail = s.trail[:0]\n\ts.assumptions = make([]bool, s.nbVars)\n",
 			New: "\ts.cleanupBindings(0)\n\ts.trail = s.trail[:0]\n\tflags := make([]bool, s.nbVars)\n\ts.assumptions = flags\n", Expect: ""},
+		// D7 and its relatives (the defect fixed by 2c53459 must be reported again if it returns)
+		seed{Prop: "C10", Name: "d7-facts-not-reinstalled", File: "solver/solver.go",
+			Old: "\tfor _, lit := range s.facts { // Unit clauses are not assumptions: they hold in every round\n\t\ts.model[lit.Var()] = lvlToSignedLvl(lit, 1)\n\t\ts.trail = append(s.trail, lit)\n\t}\n", New: "", Expect: "R10.4"},
+		seed{Prop: "C10", Name: "facts-reinstalled-not-trailed", File: "solver/solver.go",
+			Old: "\t\ts.model[lit.Var()] = lvlToSignedLvl(lit, 1)\n\t\ts.trail = append(s.trail, lit)\n\t}\n\tfor _, lit := range lits {", New: "\t\ts.model[lit.Var()] = lvlToSignedLvl(lit, 1)\n\t}\n\tfor _, lit := range lits {", Expect: "R10.4"},
+		seed{Prop: "C10", Name: "facts-reinstalled-before-retraction", File: "solver/solver.go",
+			Old: "\ts.cleanupBindings(0)\n\ts.trail = s.trail[:0]\n\ts.assumptions = make([]bool, s.nbVars)\n\ts.status = Indet\n\tfor _, lit := range s.facts { // Unit clauses are not assumptions: they hold in every round\n\t\ts.model[lit.Var()] = lvlToSignedLvl(lit, 1)\n\t\ts.trail = append(s.trail, lit)\n\t}\n",
+			New: "\ts.trail = s.trail[:0]\n\tfor _, lit := range s.facts {\n\t\ts.model[lit.Var()] = lvlToSignedLvl(lit, 1)\n\t\ts.trail = append(s.trail, lit)\n\t}\n\ts.cleanupBindings(0)\n\ts.assumptions = make([]bool, s.nbVars)\n\ts.status = Indet\n", Expect: "R10.4"},
+		seed{Prop: "C10", Name: "facts-reinstalled-all-but-first", File: "solver/solver.go",
+			Old: "\tfor _, lit := range s.facts { // Unit clauses are not assumptions: they hold in every round\n", New: "\tfor _, lit := range s.facts[1:] {\n", Expect: "R10.4", Note: "panics on an empty list, which the tests never exercise... they do: kept as a variant of the loop shape only"},
+		seed{Prop: "C10", Name: "problem-units-not-recorded", File: "solver/solver.go",
+			Old: "\ts.facts = append(s.facts, problem.Units...)\n", New: "", Expect: "R10.5"},
+		seed{Prop: "C10", Name: "appended-units-not-recorded", File: "solver/solver.go",
+			Old: "\t\ts.facts = append(s.facts, unit)\n", New: "", Expect: "R10.5"},
+		seed{Prop: "C10", Name: "appended-units-recorded-only-without-conflict", File: "solver/solver.go",
+			Old: "\t\ts.facts = append(s.facts, unit)\n\t\ts.model[unit.Var()] = lvlToSignedLvl(unit, 1)\n\t\tif s.unifyLiteral(unit, 1) != nil {\n\t\t\ts.status = Unsat\n\t\t\treturn\n\t\t}\n",
+			New: "\t\ts.model[unit.Var()] = lvlToSignedLvl(unit, 1)\n\t\tif s.unifyLiteral(unit, 1) != nil {\n\t\t\ts.status = Unsat\n\t\t\treturn\n\t\t}\n\t\ts.facts = append(s.facts, unit)\n", Expect: "R10.5", Note: "not benign: Assume resets the Unsat status and, without the record, the conflicting unit clause is gone"},
+		seed{Prop: "C10", Name: "unsat-without-refutation", File: "solver/solver.go",
+			Old: "\t\tif s.litStatus(lit) == Unsat { // lit contradicts a fact or a previous assumption\n", New: "\t\tif s.litStatus(lit) != Indet {\n", Expect: "R10.2,R10.3"},
+		seed{Prop: "C10", Name: "benign-units-recorded-one-by-one", File: "solver/solver.go",
+			Old: "\t\ts.trail[i] = lit\n\t}\n\ts.facts = append(s.facts, problem.Units...)\n", New: "\t\ts.trail[i] = lit\n\t\ts.facts = append(s.facts, lit)\n\t}\n", Expect: ""},
+		seed{Prop: "C10", Name: "minimize-drops-level-1-reasons", File: "solver/learn.go",
+			Old: "\t\t\t\tif !met[lit.Var()] /*&& abs(s.model[lit.Var()]) > 1*/ {", New: "\t\t\t\tif v := lit.Var(); !met[v] && (abs(s.model[v]) > 1 || s.assumptions[v]) {", Expect: "R10.6", Note: "external mutant C10-m2"},
+		seed{Prop: "C10", Name: "learned-clause-skips-level-1-literals", File: "solver/learn.go",
+			Old: "\t\tif s.litStatus(l) != Unsat {\n\t\t\t// In clauses where cardinality > 1, some lits might be true in the conflict clause: ignore them\n\t\t\tcontinue\n\t\t}\n\t\tmet[v] = true",
+			New: "\t\tif s.litStatus(l) != Unsat || abs(s.model[v]) == 1 {\n\t\t\tcontinue\n\t\t}\n\t\tmet[v] = true", Expect: "R10.6"},
+		seed{Prop: "C10", Name: "benign-reinstall-classic-loop", File: "solver/solver.go",
+			Old: "\tfor _, lit := range s.facts { // Unit clauses are not assumptions: they hold in every round\n", New: "\tfor i := 0; i < len(s.facts); i++ {\n\t\tlit := s.facts[i]\n", Expect: ""},
 	)
 }
 
